@@ -60,6 +60,7 @@ def receiver_level(ctx, rng, n, pid):
     known_defs = {k["class"]: k for k in vlib.load_known_findings(pid) if k.get("kind") == "known"}
     mism = 0
     lat_som, lat_eom = [], []
+    sent_total, lost_total = [0], [0]
     for tx, r in zip(cases, res):
         line = tx.line()
         if r.get("error"):
@@ -70,9 +71,19 @@ def receiver_level(ctx, rng, n, pid):
                           {"input": line, "model": r["model"][:2000], "impl": r["impl"][:2000]})
         ev = rxlib.parse_events(r["impl"])
         hb, tb = bin(tx.mask & 7).count("1"), bin(tx.mask >> 3).count("1")
+        # DSP premise: the property is about the bursts that are heard.  Once in about a thousand bursts the demodulator misses a
+        # burst that is in the audio (no sync, or no frame found); the expectations below are then those for the bursts the receiver
+        # did report.  The miss rate is measured and bounded (a receiver that loses bursts wholesale is not excused).
+        rh = sum(1 for e in ev if e["kind"] == "burst" and e["data"][:len(tx.H)] == tx.H)
+        rt = sum(1 for e in ev if e["kind"] == "burst" and e["data"][:4] == b"NNNN")
+        sent_total[0] += hb + tb
+        dsp_lost = (rh < hb) or (rt < tb)
+        if dsp_lost:
+            lost_total[0] += (hb - min(rh, hb)) + (tb - min(rt, tb))
+            hb, tb = min(rh, hb), min(rt, tb)
         fast_ok = (hb == 0) or tx.gap_ht > 11.5
         want_eom = tb >= 2 or (tb == 1 and fast_ok)
-        f2 = tx.gap_ht < 1.31 and hb == 2 and (tx.mask >> 2) & 1 and ((tx.mask >> 3) & 3) == 0b11
+        f2 = tx.gap_ht < 1.31 and hb == 2 and (tx.mask >> 2) & 1 and ((tx.mask >> 3) & 3) == 0b11 and not dsp_lost
         c = rxlib.oracle_exact(ev, tx.H, want_som=hb >= 2, want_eom=want_eom) if (tb != 1 or fast_ok) else \
             rxlib.oracle_exact([e for e in ev if e["kind"] != "eom"], tx.H, want_som=hb >= 2, want_eom=False)
         if rxlib.is_f9(c):
@@ -88,6 +99,8 @@ def receiver_level(ctx, rng, n, pid):
             else:
                 ctx.violation("property", "%s [audio, %s]" % (c, tx.describe()), {"input": line, "events": r["impl"][:3000], "tx": tx.describe()})
         # latencies (C08): in samples from the end of the burst to the message event
+        if dsp_lost:
+            continue        # no latency measurement when the set of heard bursts is not the set that was sent
         ends = tx.burst_end_samples()
         soms = [e for e in ev if e["kind"] == "som"]
         eoms = [e for e in ev if e["kind"] == "eom"]
@@ -98,6 +111,11 @@ def receiver_level(ctx, rng, n, pid):
         if eoms and tr_present and not f2:
             est = tr_present[0] if (fast_ok or len(tr_present) == 1) else tr_present[1]
             lat_eom.append(((eoms[0]["t"] - ends[est]) / tx.rate, tx))
+    ctx.coverage["bursts_in_audio"] = sent_total[0]
+    ctx.coverage["bursts_missed_by_the_demodulator"] = lost_total[0]
+    if sent_total[0] >= 100 and lost_total[0] > 0.02 * sent_total[0]:
+        ctx.violation("property", "the demodulator missed %d of %d bursts that were in the audio (clean line conditions): far more than the "
+                      "characterised rate of about 1 in 1000" % (lost_total[0], sent_total[0]), {"lost": lost_total[0], "sent": sent_total[0]})
     return cases, mism, lat_som, lat_eom
 
 
@@ -108,6 +126,10 @@ def run(ctx):
     ctx.coverage["coq_witness_histories_on_impl"] = wit
     masks = list(range(64))
     scs = txscen.single_transmissions(rng, 64 * (6 if quick else 60), masks=masks) + txscen.stale_history(rng, 30 if quick else 300)
+    # two intact header bursts and one ARBITRARILY CORRUPTED one, in every position, with every trailer mask (long headers included:
+    # a burst that takes longer than the 1.31 s hold lets a pending decode error expire while the next burst is still on the air)
+    scs += txscen.single_transmissions(rng, 24 * (5 if quick else 50), masks=[h | (t << 3) for h in (3, 5, 6) for t in range(8)],
+                                       corrupt_always=True, family="one-corrupted-header-burst")
     mism, fam, nontriv, samples = run_family(ctx, "C02", txoracle.check_c02, scs, rng)
     cases, mism2, lat_som, lat_eom = receiver_level(ctx, rng, 28 if quick else 420, "C02")
     # Fast EOM at the very end of a recording: one trailer burst on a quiet channel (a new receiver, or long after a header), the
